@@ -40,6 +40,8 @@ type SrvGenCfg struct {
 	WMalform  int // per-mille malformed operations
 	WFlush    int
 	WGet      int
+	// WReadd: per-mille chance that an ADD is followed at once by an ADD of the same key with a stripped payload
+	WReadd int
 	// WAddNI: per-mille chance (per step) that a network instance is added to the running server
 	WAddNI int
 	// GetAfterOps: per-mille chance of a complete Get right after an operations message (and one at the end)
@@ -200,6 +202,21 @@ func GenSrvHistory(r *rand.Rand, cfg *SrvGenCfg) []SEv {
 			}
 			req.Operation = append(req.Operation, op)
 			cls = append(cls, c1)
+			if cfg.WReadd > 0 && c1 == "" && op.Op == spb.AFTOperation_ADD && r.IntN(1000) < cfg.WReadd {
+				// the same key again, at once, with a payload that only keeps what is mandatory:
+				// a replace is total, nothing of the first payload may survive
+				op2 := proto.Clone(op).(*spb.AFTOperation)
+				op2.Id = opID(c)
+				Strip(op2)
+				req.Operation = append(req.Operation, op2)
+				cls = append(cls, "")
+				if len(sh.has) >= 0 {
+					isPrimary := max != nil && s.last != nil && cmp128(s.last, max) == 0
+					if isPrimary && op2.ElectionId != nil && s.last != nil && cmp128(op2.ElectionId, s.last) == 0 && sh.knownNI(p, op2.NetworkInstance) {
+						sh.note(op2)
+					}
+				}
+			}
 		}
 		return req, cls
 	}
